@@ -289,6 +289,12 @@ func (v *Verifier) verifyFunc(key string, splitName, splitCase string, splitCond
 				}
 				continue
 			}
+			if strings.HasPrefix(e.Label, "ghost-def") {
+				// the clause defines how this function moves a pure ghost variable (no code reads or writes it): it is
+				// part of the specification vocabulary, applied at the callers, listed as an assumption
+				c.assumeNote("ghost definition (not an obligation) in " + c.key + ": " + e.Src)
+				continue
+			}
 			t := c.specBool(envp, e.Expr)
 			c.addObl(&Obligation{Name: fmt.Sprintf("%s/ensures#%s@ret%d", c.key, clauseID(e, i), ri+1), Kind: "ensures",
 				Descr: "postcondition", Pos: c.pos(fd), Hyps: append([]string(nil), rs.pc...), Goal: t, Clause: e.Src})
